@@ -71,6 +71,8 @@ var kindArgs = []string{
 	`{"a":{"b":[1,{"c":2}]}}`, `[1, @nosuch, ("a" + 1)]`, `{"a": ("a" + 1)}`, "1000000", "-1000000", `"Asia/Istanbul"`, `"nosuch/zone"`,
 }
 
+var boundaryInts = []string{"0", "1", "-1", "2", "7", "9223372036854775807", "-9223372036854775807 - 1", "4611686018427387904", "1099511627776"}
+
 func fnArities(name string) []int {
 	info := cst.BuiltinFunctionManagerInstance.LookUp(name)
 	if info == nil {
@@ -162,6 +164,14 @@ func genC18fn(r *rng, thorough bool) {
 							if in == 3 && (thorough || (i+j+k)%3 == 0 || r.chance(1, 4)) || in == 2 && thorough && r.chance(1, 3) || r.chance(1, 400) {
 								call([]string{a, b, c})
 							}
+						}
+					}
+				}
+				// every triple of boundary integers (overflowing products, zero and negative moduli, extreme lengths and indices)
+				for _, a := range boundaryInts {
+					for _, b := range boundaryInts {
+						for _, c := range boundaryInts {
+							call([]string{a, b, c})
 						}
 					}
 				}
